@@ -15,6 +15,7 @@ import (
 	"fmt"
 	"math/rand"
 	"os"
+	"regexp"
 	"sort"
 	"strings"
 	"sync"
@@ -488,6 +489,12 @@ func TestCheck(t *testing.T) {
 	run.Assume("key components longer than 255 bytes are outside the property (JoinLenPrefix stores the length in one byte); nil components are skipped by " +
 		"JoinLenPrefix by design (optional trailing parameters) so generated tuples use non-nil components only")
 	run.Assume("the prefix range of the pure key monitor is [prefix, prefix||0xFF*257) as store/txn.go prefixEnd defines; the behavioural key monitor uses the real iterators instead")
+	run.Assume("not judged, only counted (" + obsFF255 + "): a component of 255 bytes of 0xFF directly after an iteration prefix puts key||version-suffix at or beyond " +
+		"prefixEnd(prefix) (store/txn.go:607-609 appends 257 x 0xFF) so prefix iteration skips the key while Get still finds it; no constructor of fsm/key.go or " +
+		"store/indexer.go receives such a component from input that passed canopy's own validation (stored keys carry 20-byte addresses, 32-byte hashes, 20-byte order ids, 8-byte integers)")
+	run.Assume("not judged, only counted (" + obsNested + "): when a stored key is a whole-segment extension of another stored key, seek-reverse iteration " +
+		"(store/versioned_store.go:497-501) and the Txn merge iterator lose / duplicate entries; the only such pair in canopy's schema is the state-change journal " +
+		"(marker and marker||stateKey, store/indexer.go:83-94), which is judged through Indexer.StateChangeKeys; synthetic nested universes are observation only")
 	e := newEnv(false)
 	stages := map[string]float64{}
 	stage := func(name string, f func()) {
@@ -547,6 +554,9 @@ func viol(run *core.Run, sig, caseName string, witness any) bool {
 			f.Close()
 		}
 		sigLogMu.Unlock()
+	}
+	if !strings.HasPrefix(caseName, "^") {
+		caseName = "^" + regexp.QuoteMeta(caseName) + "$" // the driver uses the case name as a regular expression on replay
 	}
 	return run.Violation(sig, caseName, witness)
 }
